@@ -3,6 +3,7 @@ mod c01;
 mod c02;
 mod c06;
 mod c07;
+mod c09;
 mod c16;
 mod fw;
 mod indep;
@@ -16,14 +17,40 @@ fn main() {
         std::process::exit(2);
     }
     fw::install_panic_hook();
-    let id = args[1].as_str();
-    let tier = args[2].as_str();
+    let (id, tier): (String, String) = if args[1] == "replay" {
+        // vcheck replay <file>: re-run the recorded case with a trace
+        let v: serde_json::Value = serde_json::from_str(
+            &std::fs::read_to_string(&args[2]).expect("cannot read replay file"),
+        )
+        .expect("replay file is not JSON");
+        let part = v["part"].as_str().unwrap_or("");
+        let only = if let Some(h) = v["locator"]["history"].as_array() {
+            format!(
+                "{}:h={}",
+                part,
+                h.iter().map(|x| x.to_string()).collect::<Vec<_>>().join(",")
+            )
+        } else {
+            format!("{}:{}", part, v["locator"]["index"].as_u64().unwrap_or(0))
+        };
+        std::env::set_var("VERIF_ONLY", only);
+        let tier = v["tier"].as_str().unwrap_or("quick");
+        (
+            v["property"].as_str().unwrap_or("").to_string(),
+            if tier.is_empty() { "quick".into() } else { tier.to_string() },
+        )
+    } else {
+        (args[1].clone(), args[2].clone())
+    };
+    let id = id.as_str();
+    let tier = tier.as_str();
     std::env::set_var("VERIF_TIER", tier);
     let code = match id {
         "C01" => c01::check(tier),
         "C02" => c02::check(tier),
         "C06" => c06::check(tier),
         "C07" => c07::check(tier),
+        "C09" => c09::check(tier),
         "C16" => c16::check(tier),
         _ => {
             eprintln!("unknown check {id}");
